@@ -32,7 +32,10 @@ type Context struct {
 	sequenceID     int32
 	committedRAT   *comp.RAT[RegisterType, int32]
 	transactionRAT *comp.RAT[RegisterType, transactionUnit]
-	rat            bool
+	// committedSequenceIDs holds, per register, the sequence ID of the
+	// instruction whose value was committed last.
+	committedSequenceIDs map[RegisterType]int32
+	rat                  bool
 }
 
 type transactionUnit struct {
@@ -53,6 +56,7 @@ func NewContext(debug bool, memoryBytes int, rat bool) *Context {
 		Debug:                       debug,
 		committedRAT:                comp.NewRAT[RegisterType, int32](ratLength),
 		transactionRAT:              comp.NewRAT[RegisterType, transactionUnit](ratLength),
+		committedSequenceIDs:        make(map[RegisterType]int32),
 		rat:                         rat,
 	}
 }
@@ -134,12 +138,39 @@ func (ctx *Context) InitRAT() {
 }
 
 func (ctx *Context) TransactionRATWrite(exe Execution, sequenceID int32) {
-	ctx.transactionRAT.Write(exe.Register, transactionUnit{sequenceID, exe.RegisterValue})
+	// Instructions don't complete in order: an older instruction writing after a
+	// younger one mustn't become the newest value of the register.
+	ctx.transactionRAT.WriteSorted(exe.Register, transactionUnit{sequenceID, exe.RegisterValue}, func(a, b transactionUnit) bool {
+		return a.sequenceID < b.sequenceID
+	})
+}
+
+// commitRAT folds a transaction value into the committed table, unless the
+// value already committed for the register comes from a younger instruction: an
+// older instruction may complete after a younger one was committed.
+func (ctx *Context) commitRAT(register RegisterType, tu transactionUnit) {
+	if sequenceID, exists := ctx.committedSequenceIDs[register]; exists && tu.sequenceID < sequenceID {
+		return
+	}
+	ctx.committedRAT.Write(register, tu.value)
+	ctx.committedSequenceIDs[register] = tu.sequenceID
+}
+
+// isSuperseded reports whether the committed value of the register is to be
+// read instead of the transaction value tu by an instruction with the given
+// sequence ID (0 for the latest value): it is when it was written by an
+// instruction younger than tu's that the reader follows.
+func (ctx *Context) isSuperseded(register RegisterType, tu transactionUnit, sequenceID int32) bool {
+	committedSequenceID, exists := ctx.committedSequenceIDs[register]
+	if !exists || tu.sequenceID >= committedSequenceID {
+		return false
+	}
+	return sequenceID == 0 || sequenceID >= committedSequenceID
 }
 
 func (ctx *Context) RATCommit() {
 	for register, tu := range ctx.transactionRAT.Values() {
-		ctx.committedRAT.Write(register, tu.value)
+		ctx.commitRAT(register, tu)
 	}
 	ctx.transactionRAT = comp.NewRAT[RegisterType, transactionUnit](ratLength)
 }
@@ -148,7 +179,7 @@ func (ctx *Context) RATRollback(sequenceID int32) {
 	for register, tu := range ctx.transactionRAT.FindValues(func(u transactionUnit) bool {
 		return u.sequenceID < sequenceID
 	}) {
-		ctx.committedRAT.Write(register, tu.value)
+		ctx.commitRAT(register, tu)
 	}
 	ctx.transactionRAT = comp.NewRAT[RegisterType, transactionUnit](ratLength)
 }
